@@ -116,6 +116,14 @@ pub fn generate(tier: Tier, rng: &mut Rng, sink: &mut dyn FnMut(RtCase)) {
         crate::GEN_PANICKED.store(true, std::sync::atomic::Ordering::SeqCst);
         eprintln!("generator family gen_tokio panicked");
     }
+    if std::panic::catch_unwind(std::panic::AssertUnwindSafe(|| gen_selfsig(&mut g))).is_err() {
+        crate::GEN_PANICKED.store(true, std::sync::atomic::Ordering::SeqCst);
+        eprintln!("generator family gen_selfsig panicked");
+    }
+    if std::panic::catch_unwind(std::panic::AssertUnwindSafe(|| gen_tokio_selfsig(&mut g))).is_err() {
+        crate::GEN_PANICKED.store(true, std::sync::atomic::Ordering::SeqCst);
+        eprintln!("generator family gen_tokio_selfsig panicked");
+    }
     if std::panic::catch_unwind(std::panic::AssertUnwindSafe(|| gen_race(&mut g))).is_err() {
         crate::GEN_PANICKED.store(true, std::sync::atomic::Ordering::SeqCst);
         eprintln!("generator family gen_race panicked");
@@ -1732,6 +1740,50 @@ fn gen_mpair(g: &mut Gen) {
 // they could proceed; graphs large enough to exhaust it several times. Monitors only (the model has
 // no budget): the implementation's traces and outcomes must satisfy the properties.
 // ---------------------------------------------------------------------------------------------
+
+/// selfsig: the interrupt signal is sent by a user future while the call is being polled
+/// (`sig=<i>`): ids taken from the ready stream earlier in the same poll start afterwards.
+/// Modelled by `SelfSignal.step_sig`.
+fn gen_selfsig(g: &mut Gen) {
+    let count = g.pick(700, 7000);
+    for _ in 0..count {
+        let (ops, n) = random_graph(g.rng, 2, 8, true);
+        let mut graph = must_build(&ops);
+        let mut cfg = random_call_cfg(g.rng, n, true, &Api::ALL);
+        cfg.with = true;
+        if cfg.strat == Strat::Non || cfg.strat == Strat::Ign || g.rng.chance(1, 2) {
+            cfg.strat = if g.rng.chance(1, 2) { Strat::Fin } else { Strat::Pn(g.rng.below(4) as u64) };
+        }
+        cfg.sig = Some(g.rng.below(n));
+        let evs = adaptive_call(g.rng, &mut graph, &cfg, KNOBS_RAND, 6 * n + 20);
+        g.emit("selfsig", &ops, Body::X(cfg, evs));
+    }
+}
+
+/// tokio-selfsig: wide graph inside a real tokio runtime; every user future first performs `bops`
+/// budget-consuming tokio operations, the future of function `sig` sends the interrupt signal
+/// (monitors only: the call must return, nothing may panic).
+fn gen_tokio_selfsig(g: &mut Gen) {
+    let n = 80usize;
+    let ops = plain_ops(n, &[]);
+    let sigs: Vec<usize> = match g.tier {
+        Tier::Quick => (0..n).collect(),
+        Tier::Thorough => (0..n).collect(),
+    };
+    for bops in 0..5usize {
+        for &sig in &sigs {
+            let mut cfg = CallCfg::plain(if sig % 2 == 0 { Api::ForEach } else { Api::TryForEach });
+            cfg.with = true;
+            cfg.mutable = (sig / 2) % 2 == 1;
+            cfg.strat = if sig % 3 == 2 { Strat::Pn(2) } else { Strat::Fin };
+            cfg.incl = sig % 5 != 4;
+            cfg.imm = (0..n).map(|i| (i, true)).collect();
+            cfg.sig = Some(sig);
+            cfg.bops = bops;
+            g.emit("tokio-selfsig", &ops, Body::X(cfg, vec![ev(CallEvKind::Tokio)]));
+        }
+    }
+}
 
 fn gen_tokio(g: &mut Gen) {
     // calls: k succeeding roots, one failing root F, a child C of F; F inserted first or last
